@@ -22,6 +22,10 @@ def units(tier):
     return [
         H("C10", "lokyverif.harness.c10_resize", "check_wait_job_completion", t, ["loky.reusable_executor:_ReusablePoolExecutor._wait_job_completion"],
           "0..4 pending work items completing 1..2 per poll"),
+        H("C10", "lokyverif.harness.c10_resize", "check_resize_aborted", 300, ["loky.reusable_executor:_ReusablePoolExecutor._resize"],
+          "old != new in 1..3, 0..old live workers; the wait for running jobs is aborted by an exception: nothing of the resize may have happened"),
+        H("C10", "lokyverif.harness.c08_pool_size", "check_adjust_start_failure", 300, ["loky.process_executor:ProcessPoolExecutor._adjust_process_count"],
+          "0..2 registered, max_workers 1..4, the k-th Process.start() of the top-up fails (k 0..3)"),
         H("C10", M, "check_resize", t, f, "old/new 1..3, 0..old live workers, manager started or not"),
         H("C10", M, "check_resize_terminates", t, f, "old != new in 1..3, 0..old dead workers in the table, new workers die or not, pool breaks meanwhile or not"),
     ]
